@@ -36,6 +36,7 @@ type E1Op struct {
 	Text    string `json:"text,omitempty"`  // feed: the bytes to deliver (instead of N filler bytes)
 	Empty   bool   `json:"empty,omitempty"` // readfrom: the source returns (0, nil) before every fragment
 	EOFData bool   `json:"eofdata,omitempty"` // readfrom: the source returns its last fragment together with io.EOF
+	Pausing bool   `json:"pausing,omitempty"` // readfrom: every Read of the source is a yield point (a source may block)
 }
 
 type E1Task struct {
@@ -591,7 +592,11 @@ func (r *e1Run) doWrite(ti, oi int, op E1Op, td *e1TaskData, backing []byte) {
 		case "ctxwritev":
 			call.N, call.Err = r.ch.CtxWritev(ctx, segs)
 		case "readfrom":
-			call.N, call.Err = r.ch.ReadFrom(&shortReader{data: append([]byte{}, buf...), step: imax(1, op.N), empty: op.Empty, eofData: op.EOFData})
+			src := &shortReader{data: append([]byte{}, buf...), step: imax(1, op.N), empty: op.Empty, eofData: op.EOFData}
+			if op.Pausing {
+				src.pause = func() { r.s.Yield("src.read", nil) }
+			}
+			call.N, call.Err = r.ch.ReadFrom(src)
 		case "write":
 			msg, _ := e1Message(op.Carrier, buf, call.ID)
 			if op.Carrier == "arena" {
